@@ -70,6 +70,13 @@ def gen_cases(rng, tier, names=None, per=None):
             w = idle_of(name, ns)
             ins, regime, _ = make_inputs(rng, name, w + rng.randrange(12, 60), regime)
             cases.append((name, ns, fs, ins, regime))
+        # long streams: anything an implementation does every so many values (re-summing a window, rebuilding a tree, refreshing
+        # a cache) only shows on series much longer than any period
+        for n in ([rng.choice([1100, 1300, 2100])] if tier == 'quick' else [1100, 2100, 4200, 9000]):
+            ns, fs = (list(dns), list(dfs)) if n % 2 else cfg(rng, 8)
+            ns, fs = list(ns), list(fs)
+            ins, regime, _ = make_inputs(rng, name, n, rng.choice(['walk', 'wide', 'zigzag']))
+            cases.append((name, ns, fs, ins, regime + '+long'))
     return cases
 
 
@@ -82,7 +89,9 @@ def run_both(cases, prefix='i', spec=False):
     for i, (name, ns, fs, ins, regime) in enumerate(cases):
         lines.append('%s%d %s' % (prefix, i, ind_line(name, ns, fs, ins)))
     go = vlib.run_go(lines)
-    model = vlib.run_model(lines if spec else [l.replace(' IND ', ' INDM ', 1) for l in lines])
+    # the documented formula is evaluated by un-memoised recursion over positions: long series go to the model only (Go = model
+    # bit for bit there; model = formula is what the theorems say)
+    model = vlib.run_model([l if (spec and not str(c[4]).endswith('+long')) else l.replace(' IND ', ' INDM ', 1) for l, c in zip(lines, cases)])
     return lines, go, model
 
 
@@ -852,6 +861,8 @@ def leq(a, b, scale):
 
 # indicators whose defining formula has a data-dependent denominator: a non-finite value there is exempt.
 # For all the others (std, ATR, bands, moving min/max, Aroon …) a NaN/Inf IS a violation: nothing divides by data.
+# indicators whose code is a recorded deviation from the documented formula (C01 findings): the formula says nothing about them here
+C01_DEVIATING = {'Aroon', 'UlcerIndex'}
 NAN_OK = {'Rsi', 'Mfi', 'StochasticOscillator', 'WilliamsR', 'StochasticRsi', 'StochasticRsiG', 'Mfm', 'Cmf', 'Bop', 'BollingerBandWidth',
           'UlcerIndex'}
 
@@ -874,13 +885,36 @@ def c15_cases(rng, tier, names, per):
                 vol = [0.0 if rng.random() < 0.15 else v for v in sv['v']]
                 ins, regime = [vol], regime + '+volume'
             cases.append((name, ns, fs, ins, regime))
+        # long streams (see gen_cases)
+        kinds, cfg, (dns, dfs) = CAT[name]
+        for n in ([rng.choice([1100, 1300, 2100])] if tier == 'quick' else [1100, 2100, 4200, 9000]):
+            ns, fs = (list(dns), list(dfs)) if n % 2 else cfg(rng, 8)
+            ins, regime, ohlcv = make_inputs(rng, name, n, rng.choice(['walk', 'wide', 'zigzag']))
+            cases.append((name, list(ns), list(fs), ins, regime + '+long'))
     return cases
 
 
-def c15_eval(res, cases, lines, go, findings, stats):
+def spec_value(m, k, j):
+    """value of the documented formula (driver, Float) for the position of element j of output k; None if not available"""
+    try:
+        if m['status'] != 'ok' or m['spec'] is None:
+            return None
+        idle = int(m['meta']['idle'])
+        starts = [int(x) for x in m['meta'].get('starts', '').split(',') if x not in ('', '-')]
+        st = starts[k] if k < len(starts) else idle
+        sj = idle + j - st
+        if sj < 0 or k >= len(m['spec']) or sj >= len(m['spec'][k]):
+            return None
+        return h2f(m['spec'][k][sj])
+    except (KeyError, ValueError, IndexError):
+        return None
+
+
+def c15_eval(res, cases, lines, go, findings, stats, model=None):
     for i, c in enumerate(cases):
         cid = lines[i].split(' ')[0]
         g = parse_ind(go.get(cid, 'missing'))
+        m = parse_ind(model.get(cid, 'missing')) if model else None
         name = c[0]
         if g['status'] != 'ok':
             stats['not_ok'] += 1
@@ -896,7 +930,15 @@ def c15_eval(res, cases, lines, go, findings, stats):
         for (k, lo, hi) in RANGE.get(name, []):
             for j, v in enumerate(outs[k]):
                 if undefined(v):
-                    if nan_ok:
+                    sv = spec_value(m, k, j) if m else None
+                    if nan_ok and sv is not None and not undefined(sv) and name not in C01_DEVIATING:
+                        # the exemption is for positions where the defining denominator is zero, i.e. where the documented formula
+                        # itself is undefined; here the formula has a value (inside the documented range or not) and the code has none
+                        stats['nonfinite_where_defined'] += 1
+                        if problem is None:
+                            problem = {'output': k, 'index': j, 'value': repr(v), 'formula': sv, 'kind': 'nonfinite-where-defined',
+                                       'note': 'non-finite value at a position where the documented formula is defined'}
+                    elif nan_ok:
                         stats['exempt'] += 1
                     elif problem is None:
                         problem = {'output': k, 'index': j, 'value': repr(v), 'note': 'non-finite value although the formula divides by no data'}
@@ -938,6 +980,8 @@ def c15_eval(res, cases, lines, go, findings, stats):
         if problem:
             f = findings.get(name) or (findings.get('Atr') if name == 'KeltnerChannelG' else None)   # same ATR: a Hull ATR may be negative
             cond = (f or {}).get('condition', {})
+            if f and cond.get('kind') and cond.get('kind') != problem.get('kind'):
+                f = None        # the recorded finding is about another kind of failure
             if f and ('ns0' not in cond or (c[1] and c[1][0] == cond['ns0'])) and cid not in MISMATCH_IDS:
                 stats['known'][name] += 1
                 continue
@@ -953,10 +997,10 @@ def check_c15(res, tier, replay):
     names = list(RANGE) + list(BANDS) + ['MovingMax', 'MovingMin']
     per = 24 if tier == 'quick' else 500
     cases = replay_cases(replay) if replay else [w for w, _ in witness_cases('C15')] + c15_cases(rng, tier, names, per)
-    stats = {'checked': 0, 'exempt': 0, 'bad': 0, 'not_ok': 0, 'cells': set(), 'known': collections.defaultdict(int)}
-    lines, go, model = run_both(cases)
+    stats = {'checked': 0, 'exempt': 0, 'bad': 0, 'not_ok': 0, 'nonfinite_where_defined': 0, 'cells': set(), 'known': collections.defaultdict(int)}
+    lines, go, model = run_both(cases, spec=True)
     mism = correspondence(res, cases, lines, go, model, 'C15')
-    c15_eval(res, cases, lines, go, findings, stats)
+    c15_eval(res, cases, lines, go, findings, stats, model)
     total = len(cases)
     focused = []
     if LAST_MISMATCH_COMPONENTS and not replay:
